@@ -37,6 +37,13 @@ namespace ip {
 	{}
 
 	template<typename Protocol>
+	basic_resolver<Protocol>::~basic_resolver()
+	{
+		// pending lookups complete with operation_aborted, they are not dropped
+		cancel();
+	}
+
+	template<typename Protocol>
 	basic_resolver<Protocol>::basic_resolver(basic_resolver<Protocol>&&) noexcept = default;
 
 	template<typename Protocol>
